@@ -100,6 +100,14 @@ pub fn drive09(a: &Args, m: &mut Mon, sink: &mut Sink) {
 // ------------------------------------------------------------------------------------------ C10
 
 fn quartic_form(r: &mut Rng) -> ([f64; 6], &'static str) {
+    let (mut v, name) = quartic_form0(r);
+    if r.chance(0.25) {
+        v[0] = 0.0; // no additive constant: nothing masks the v-dependent terms
+    }
+    (v, name)
+}
+
+fn quartic_form0(r: &mut Rng) -> ([f64; 6], &'static str) {
     match r.below(8) {
         0 => {
             let k = r.usize(0, 5);
@@ -146,7 +154,8 @@ fn quartic_form(r: &mut Rng) -> ([f64; 6], &'static str) {
 }
 
 fn quartic_arg(r: &mut Rng, lo_switch: f64, hi_switch: f64) -> (f64, &'static str) {
-    match r.below(12) {
+    match r.below(13) {
+        12 => (ulps(1.0, r.pick(&[-8i64, -7, -6, -5, -4, -3, -2, -1, 1, 2, 3, 4, 5, 6, 7, 8])), "v_adjacent_floats_of_1"),
         0 => (ulps_fast(1.0, r.int(-3000, 3000)), "v_ulps_of_1"),
         1 => (1.0, "v_one"),
         2 => (ulps_fast(lo_switch, r.int(-3000, 3000)), "v_ulps_of_lower_switch"),
@@ -195,7 +204,7 @@ fn canaries10(m: &mut Mon, sink: &mut Sink) {
 }
 
 pub const FLOORS10: &[&str] = &[
-    "v:v_ulps_of_1", "v:v_one", "v:v_ulps_of_lower_switch", "v:v_ulps_of_upper_switch", "v:x_sweep_-40_40", "v:v_tiny", "v:v_huge", "v:x_near_zero",
+    "v:v_ulps_of_1", "v:v_adjacent_floats_of_1", "v:v_one", "v:v_ulps_of_lower_switch", "v:v_ulps_of_upper_switch", "v:x_sweep_-40_40", "v:v_tiny", "v:v_huge", "v:x_near_zero",
     "form:one_hot", "form:benchmark_magnitudes", "form:from_integral", "branch_series", "branch_closed_form", "checked", "v_equals_one_exact",
 ];
 
@@ -206,6 +215,35 @@ pub fn drive10(a: &Args, m: &mut Mon, sink: &mut Sink) {
     let (lo_sw, hi_sw) = switch_points();
     m.extra.insert("switch_v_lower_threshold".into(), json!(hx(lo_sw)));
     m.extra.insert("switch_v_upper_threshold".into(), json!(hx(hi_sw)));
+    if a.shard == 0 {
+        let mut forms: Vec<[f64; 6]> = Vec::new();
+        for k in 0..6 {
+            let mut f = [0.0; 6];
+            f[k] = 1.0;
+            forms.push(f);
+        }
+        forms.push([0.0, 1.0, 1.0, 1.0, 1.0, 1.0]);
+        forms.push([0.0, 1.0, -1.0, 1.0, -1.0, 1.0]);
+        for form in &forms {
+            for centre in [1.0, lo_sw, hi_sw] {
+                for d in -8i64..=8 {
+                    let v = ulps(centre, d);
+                    let q = IntOfLogPoly4::from_nums(form);
+                    m.eval();
+                    m.count("corpus_neighbourhoods");
+                    let (s0, _c0) = verif_exp5_branch_counts();
+                    let res = guard(|| q.evaluate(v));
+                    let (s1, _c1) = verif_exp5_branch_counts();
+                    let branch = if s1 > s0 { "series" } else { "closed" };
+                    let hh = hash_bits(101, form.iter().map(|e| e.to_bits()).chain([v.to_bits()]));
+                    match res {
+                        Err(pn) => m.panic("IntOfLogPoly4::evaluate panic", &pn, || json!({"f": hxs(form), "v": hx(v)})),
+                        Ok(rv) => sink.emit(json!({"t": "q4", "f": hs(form), "v": h(v), "r": h(rv), "branch": branch, "h": hh, "fc": "corpus", "vc": "corpus_neighbourhood"})),
+                    }
+                }
+            }
+        }
+    }
     let n = a.n(100_000, 3_000_000);
     // dense deterministic sweep of x in [-40, 40] (shard-interleaved) in addition to the random lanes
     let step = if a.thorough() { 1e-3 } else { 1e-2 };
